@@ -268,6 +268,23 @@ prop("C12",
      thorough=dict(cases=0, probe_cases=300, sub_cases=600, timeout=6000),
      )
 
+prop("C15",
+     design_ref="DESIGN.md §5 C15",
+     technique="process-level monitor: stdout/exit status of the CLI built from the tree vs lines constructed from the oracle",
+     level_text=("Runtime monitoring at the process boundary: the adf-bdd binary built from the current tree is run on "
+                 "generated files x --lib {naive,biodivine,hybrid} x {none,--lx,--an} x random subsets of the ten semantics "
+                 "flags x --heu {absent, 4 heuristics}; exit status must be 0, first line the grounded interpretation, then "
+                 "the complete models (grounded first), the remaining lines as a multiset must contain every section the "
+                 "mode wires, built from the oracle's interpretations, labels and expected statement order. Malformed files "
+                 "(syntax errors, undeclared statements) must exit non-zero without printing an interpretation. Thorough: "
+                 "second CLI feature build and a valgrind memcheck sample."),
+     level_note=ORACLE_NOTE + " Alphanumeric statement order is taken from the library's own sort (C10 covers order independence).",
+     rule=("cases = generated files, 3 invocations (one per library mode) plus malformed variants each; non-trivial = "
+           "invocation with >=2 semantics flags printing >=2 lines, or a rejected malformed file; distinct by structure/text hash"),
+     quick=dict(cases=120),
+     thorough=dict(cases=1500, valgrind_cases=12),
+     )
+
 NOT_BUILT = "monitor not built yet in this session (work in progress); see DESIGN.md for the planned design"
-for _pid in ["C15", "C16", "C17"]:
+for _pid in ["C16", "C17"]:
     prop(_pid, claimed=False, reason=NOT_BUILT)
